@@ -1,4 +1,5 @@
 import Tup.Model.IdSpace
+import Std.Data.HashSet
 /-!
   Model of the session database of `tupimage/id_manager.py` (`IDManager`): five `ids_<space>`
   tables `id ↦ (description, atime)` and the `upload` table `(id, terminal) ↦ (description, size,
@@ -85,7 +86,9 @@ def Table.setAtime (t : Table) (id now : Nat) : Table :=
   t.map (fun r => if r.id == id then { r with atime := now } else r)
 
 /-- `DELETE FROM … WHERE id IN (…)` -/
-def Table.eraseAll (t : Table) (ids : List Nat) : Table := t.filter (fun r => !ids.contains r.id)
+def Table.eraseAll (t : Table) (ids : List Nat) : Table :=
+  let set := Std.HashSet.ofList ids      -- `ids.contains`, built once (60 000-row tables)
+  t.filter (fun r => !set.contains r.id)
 
 /-- `WHERE (id & mask) BETWEEN begin AND end-1` -/
 def Table.inSub (t : Table) (s : Space) (u : Sub) : Table := t.filter (fun r => s.sqlFilter u r.id)
@@ -123,9 +126,11 @@ def nodupB : List Nat → Bool
 /-- `… ORDER BY atime ASC LIMIT n` as a *set* of rows: `removed` is an admissible answer iff it has
     `min n |rows|` distinct ids of `rows` and no removed row is newer than a kept one. -/
 def admissibleRemoved (rows : List Row) (n : Nat) (removed : List Nat) : Bool :=
-  let rem := rows.filter (fun r => removed.contains r.id)
-  let kept := rows.filter (fun r => !removed.contains r.id)
-  nodupB removed && removed.all (fun i => rows.any (fun r => r.id == i)) &&
+  let set := Std.HashSet.ofList removed
+  let ids := Std.HashSet.ofList (rows.map (·.id))
+  let rem := rows.filter (fun r => set.contains r.id)
+  let kept := rows.filter (fun r => !set.contains r.id)
+  nodupB removed && removed.all (fun i => ids.contains i) &&
   removed.length == min n rows.length &&
   (match maxAtime rem, minAtime kept with
    | some a, some b => decide (a ≤ b)
